@@ -87,6 +87,8 @@ func main() {
 		opRlines(r, *n, *tier)
 	case "ast":
 		opAst(r, *n, *tier)
+	case "regex":
+		opRegex(r, *n, *tier)
 	case "replay":
 		opReplay()
 	default:
